@@ -20,25 +20,33 @@ impl<A> Addr<A> {
 }
 
 // ---- T17: the ghost effect log
-/// one message handed to a component actor; the message TYPE fixes the component (only one actor type handles each)
-pub ghost struct Eff { pub ty: int, pub payload: int }
+/// the abstract value of a message (uninterpreted: two messages are the same only if they are equal as values)
+pub ghost struct Msg { pub ty: int, pub payload: int }
+pub uninterp spec fn msg_of<M>(m: M) -> Msg;
+/// the identity of the actor behind an address (uninterpreted: two address fields are the same actor only if equal)
+pub uninterp spec fn addr_id<A>(a: Addr<A>) -> int;
+/// one message handed to one actor
+pub ghost struct Eff { pub to: int, pub msg: Msg }
+pub open spec fn sent<A, M>(to: Addr<A>, m: M) -> Eff { Eff { to: addr_id(to), msg: msg_of(m) } }
 pub tracked struct VxLog { pub ghost s: Seq<Eff> }
-/// injective abstraction of a message value (uninterpreted: two messages have the same effect only if they are equal)
-pub uninterp spec fn eff_of<M>(m: M) -> Eff;
 #[verifier::external_body]
-pub fn vx_note<M>(m: M, Tracked(log): Tracked<&mut VxLog>) -> (r: M)
-    ensures r == m, final(log).s == old(log).s.push(eff_of(m))
+pub fn vx_note<A, M>(to: &Addr<A>, m: M, Tracked(log): Tracked<&mut VxLog>) -> (r: M)
+    ensures r == m, final(log).s == old(log).s.push(sent(*to, m))
 { m }
 
 /// a membership message is its list of node ids (the capacity of the Vec that carries it is not part of the message)
 pub open spec fn member_msg(m: Vec<u64>) -> RaftIndexRequest { RaftIndexRequest::SaveMember { member: m, member_after_consensus: None, node_addr: None } }
 pub broadcast axiom fn axiom_eff_member(a: Vec<u64>, b: Vec<u64>)
     requires a@ == b@
-    ensures #[trigger] eff_of(RaftIndexRequest::SaveMember { member: a, member_after_consensus: None, node_addr: None })
-        == #[trigger] eff_of(RaftIndexRequest::SaveMember { member: b, member_after_consensus: None, node_addr: None });
+    ensures #[trigger] msg_of(RaftIndexRequest::SaveMember { member: a, member_after_consensus: None, node_addr: None })
+        == #[trigger] msg_of(RaftIndexRequest::SaveMember { member: b, member_after_consensus: None, node_addr: None });
+
+/// a table write is (table name TEXT, key, value): which Arc carries the name is not part of the message
+pub uninterp spec fn table_set_msg(name: Seq<char>, key: Vec<u8>, value: Vec<u8>) -> Msg;
+pub broadcast axiom fn axiom_eff_table_set(t: Arc<String>, key: Vec<u8>, value: Vec<u8>)
+    ensures #[trigger] msg_of(TableManagerReq::Set { table_name: t, key: key, value: value, last_seq_id: None }) == table_set_msg((*t)@, key, value);
 
 // ---- opaque component requests / results
-pub struct TableManagerReq { pub vx_opaque: u8 }
 pub struct NamespaceRaftReq { pub vx_opaque: u8 }
 pub struct SequenceRaftReq { pub vx_opaque: u8 }
 pub struct McpManagerRaftReq { pub vx_opaque: u8 }
@@ -76,6 +84,37 @@ pub struct NamingActor { pub vx_opaque: u8 }
 pub struct DirectCacheManager { pub vx_opaque: u8 }
 pub struct RaftIndexManager { pub vx_opaque: u8 }
 pub struct RaftSnapshotManager { pub vx_opaque: u8 }
+pub struct SnapshotWriterActor { pub vx_opaque: u8 }
+pub struct ConfigQueryParam { pub vx_opaque: u8 }
+pub struct ConfigHistoryParam { pub vx_opaque: u8 }
+pub struct ListenerItem { pub vx_opaque: u8 }
+pub struct ListenerSenderType { pub vx_opaque: u8 }
+pub struct ConfigResult { pub vx_opaque: u8 }
+pub struct RaftApplyDataResponse { pub vx_opaque: u8 }
+impl Message for ConfigCmd { type Result = anyhow::Result<ConfigResult>; }
+impl Message for RaftApplyDataRequest { type Result = anyhow::Result<RaftApplyDataResponse>; }
+impl Message for TableManagerInnerReq { type Result = anyhow::Result<TableManagerResult>; }
+impl<A> Clone for Addr<A> {
+    #[verifier::external_body]
+    fn clone(&self) -> (r: Self) ensures r == *self { unimplemented!() }
+}
+/// std: strict UTF-8 decoding and big-endian ids, as uninterpreted functions of the bytes
+#[verifier::external_type_specification]
+#[verifier::external_body]
+pub struct ExFromUtf8Error(std::string::FromUtf8Error);
+impl From<std::string::FromUtf8Error> for anyhow::Error {
+    #[verifier::external_body]
+    fn from(e: std::string::FromUtf8Error) -> Self { anyhow::vx_mk_err() }
+}
+pub assume_specification[ String::from_utf8 ](v: Vec<u8>) -> (r: Result<String, std::string::FromUtf8Error>)
+    ensures r is Ok <==> utf8_text(v@) is Some, r is Ok ==> r.unwrap()@ == utf8_text(v@).unwrap();
+pub uninterp spec fn utf8_text(b: Seq<u8>) -> Option<Seq<char>>;
+pub uninterp spec fn be_id(b: Seq<u8>) -> u64;
+#[verifier::external_body]
+pub fn bin_to_id(buf: &[u8]) -> (r: u64)
+    ensures r == be_id(buf@)
+{ unimplemented!() }
+
 pub struct RaftLogManager { pub vx_opaque: u8 }
 pub struct SnapshotHeaderDto { pub vx_opaque: u8 }
 #[verifier::external_body]
@@ -101,8 +140,12 @@ impl StoreUtils {
 // ---- std: lossy UTF-8 decoding, as an uninterpreted function of the bytes
 /// vstd: `to_string` on a Display value ensures `to_string_from_display_ensures(value, result)`; a lossily decoded
 /// text prints as itself
+pub uninterp spec fn cow_target<'a, 'b, T: ?Sized + ToOwned>(c: &'b std::borrow::Cow<'a, T>) -> &'b T;
 pub assume_specification<'a>[ String::from_utf8_lossy ](v: &'a [u8]) -> (r: std::borrow::Cow<'a, str>)
-    ensures forall|s: String| #[trigger] vstd::string::to_string_from_display_ensures::<std::borrow::Cow<'a, str>>(&r, s) ==> s@ == key_text(v@);
+    ensures cow_target(&r)@ == key_text(v@),
+        forall|s: String| #[trigger] vstd::string::to_string_from_display_ensures::<std::borrow::Cow<'a, str>>(&r, s) ==> s@ == key_text(v@);
+pub assume_specification<'a, 'b, T: ?Sized + ToOwned>[ <std::borrow::Cow<'a, T> as AsRef<T>>::as_ref ](c: &'b std::borrow::Cow<'a, T>) -> (r: &'b T)
+    ensures r == cow_target(c);
 
 // ---- the conversions of the ConfigFullValue arm: deterministic functions of the bytes (uninterpreted)
 pub uninterp spec fn key_text(b: Seq<u8>) -> Seq<char>;
